@@ -13,19 +13,6 @@ META = dict(
 )
 
 
-def gen_portable(repo, work):
-    src = open(os.path.join(repo, "src/result_others.go")).read()
-    src = re.sub(r"//go:build[^\n]*\n", "", src)
-    if src.count("func compareRanks(") != 1:
-        raise RuntimeError("compareRanks not found in result_others.go")
-    src = src.replace("func compareRanks(", "func zzCompareRanksPortable(")
-    out = os.path.join(work, "zz_portable.go")
-    open(out, "w").write(src)
-    ov = {os.path.join(repo, "src/zz_verif_portable.go"): out}
-    ov.update(scaled_constants(chunkSize=3)(repo, work))
-    return ov
-
-
 def suites(tier):
     q = tier == "quick"
     jobs = []
@@ -38,4 +25,4 @@ def suites(tier):
         jobs.append(dict(id=jid("pass", cfg), func="zzH_C04_pass", cfg=cfg))
     cfg = dict(chunks=12 if q else 70, parts=5 if q else 32)
     jobs.append(dict(id=jid("slice", cfg), func="zzH_C04_slice", cfg=cfg))
-    return [dict(SRC, name="src", jobs=jobs, generate=gen_portable)]
+    return [src_suite("src", jobs, chunkSize=3)]
